@@ -20,14 +20,16 @@ def run_on_mutant(patch, props, tier="quick"):
     tmp = tempfile.mkdtemp(prefix="cbi-mutant-")
     dst = os.path.join(tmp, "repo")
     try:
-        shutil.copytree("/repo", dst, ignore=shutil.ignore_patterns(".git", "__pycache__", "*.egg-info", "docs"))
-        r = subprocess.run(["git", "apply", "--unsafe-paths", "--directory", dst, os.path.abspath(patch)],
-                           cwd="/", capture_output=True, text=True)
+        subprocess.run(["git", "clone", "-q", "/repo", dst], check=True)
+        subprocess.run(["git", "-C", dst, "config", "user.email", "v@v"], check=True)
+        subprocess.run(["git", "-C", dst, "config", "user.name", "v"], check=True)
+        r = subprocess.run(["git", "-C", dst, "apply", "-3", os.path.abspath(patch)], capture_output=True, text=True)
         if r.returncode != 0:
-            r = subprocess.run(["patch", "-p1", "-d", dst, "-i", os.path.abspath(patch)],
+            subprocess.run(["git", "-C", dst, "checkout", "-q", "--", "."], check=True)
+            r = subprocess.run(["patch", "-p1", "--fuzz=3", "-d", dst, "-i", os.path.abspath(patch)],
                                capture_output=True, text=True)
             if r.returncode != 0:
-                return {p: ("apply-failed", r.stdout + r.stderr) for p in props}
+                return {p: ("apply-failed", 0, r.stdout + r.stderr) for p in props}
         out = {}
         for p in props:
             evp = os.path.join(core.EVID, f"{p}.json")
@@ -55,7 +57,7 @@ def main(rest):
         for p, v in res.items():
             print(f"{os.path.basename(rest[1])} -> {p}: rc={v[0]} violations={v[1]}")
             if "-v" in sys.argv or v[0] not in (0, 1):
-                print(v[2])
+                print(v[-1])
         return 0
     if rest[0] == "seeded":
         base = os.path.join(core.VERIF, "seeded")
